@@ -118,6 +118,8 @@ type Ptr struct {
 	Elem    *Base
 	ElemOff Lin
 	ElemTyp types.Type
+	// NilUnk: a pointer of unknown origin – assumed usable, but a comparison with nil is undecided
+	NilUnk bool
 }
 
 func (p *Ptr) TKey() string {
@@ -129,10 +131,10 @@ func (p *Ptr) TKey() string {
 
 // Obj is an abstract memory object.
 type Obj struct {
-	ID    int
-	Desc  string
-	Fresh bool // allocated by analysed code in this activation tree (cannot alias unknown objects)
-	Typ   types.Type
+	ID      int
+	Desc    string
+	Fresh   bool // allocated by analysed code in this activation tree (cannot alias unknown objects)
+	Typ     types.Type
 	Nilable bool
 }
 
@@ -193,7 +195,8 @@ type Iface struct {
 func (i *Iface) TKey() string { return "if:" + i.Typ.String() + ":" + i.Val.TKey() }
 
 type MapT struct {
-	Obj *Obj
+	Obj    *Obj
+	NilUnk bool
 }
 
 func (m *MapT) TKey() string { return fmt.Sprintf("m:o%d", m.Obj.ID) }
